@@ -18,7 +18,10 @@ L2 == { <<"list", e>> : e \in L1 } \cup { <<"dict", <<"str">>, e>> : e \in L1 } 
 UShapes == { <<"union", << <<"int">>, <<"list", <<"any">> >> >> >>, <<"union", << <<"str">>, <<"dict", <<"str">>, <<"any">> >> >> >>,
              <<"union", << <<"list", <<"int">> >>, <<"dict", <<"str">>, <<"int">> >> >> >>, <<"union", << <<"int">>, <<"list", <<"str">> >> >> >>,
              <<"list", <<"union", << <<"int">>, <<"list", <<"any">> >> >> >> >>, <<"opt", <<"union", << <<"bool">>, <<"dict", <<"str">>, <<"any">> >> >> >> >> }
-Shapes == L1 \cup L2 \cup UShapes
+\* user classes implementing SerializableType(use_annotations=True) that hand out a container they keep holding
+SShapes == { <<"stype", "SW", <<"list", <<"str">> >> >>, <<"stype", "SW", <<"dict", <<"str">>, <<"list", <<"int">> >> >> >>,
+             <<"list", <<"stype", "SW", <<"list", <<"int">> >> >> >>, <<"opt", <<"stype", "SW", <<"dict", <<"str">>, <<"str">> >> >> >> }
+Shapes == L1 \cup L2 \cup UShapes \cup SShapes
 NSets == SUBSET {"list", "dict", "set"}
 ClassFor(t, n, plain) ==
   <<"dc", "K", << <<"f", t, <<"req">>, <<>> >>, <<"g", <<"list", <<"int">> >>, <<"fac", L(<<I(1)>>)>>, <<>> >> >>,
